@@ -79,6 +79,14 @@ func genCase(t *rapid.T) Case {
 			}
 		}
 	}
+	if nk >= 2 && kinds[0] == 0 && kinds[1] == 0 && npool >= 2 && !c.Upper && rapid.IntRange(0, 2).Draw(t, "plant") == 0 {
+		cp := gen.CollidingPair().Draw(t, "collide")
+		copy(pool[0], cp[0])
+		copy(pool[1], cp[1])
+		if nk == 3 {
+			pool[1][2] = pool[0][2]
+		}
+	}
 	n := rapid.IntRange(1, 40).Draw(t, "n")
 	for i := 0; i < n; i++ {
 		r := gen.Row{"id": gen.Int(int64(i))}
